@@ -41,3 +41,12 @@ func VerifEmit(ev map[string]interface{}) {
 	b, _ := json.Marshal(ev)
 	f.Write(append(b, '\n'))
 }
+
+// VerifInts renders octets as a JSON array of numbers.
+func VerifInts(b []byte) []int {
+	r := make([]int, len(b))
+	for i, x := range b {
+		r[i] = int(x)
+	}
+	return r
+}
